@@ -10,6 +10,7 @@ same enumeration order and the same canonical format (`d`: fields longer than 24
 by `#` + FNV-1a-64).  Used only by the correspondence checks, never inside a proof.
 -/
 import PestTyped.Model.Text
+import PestTyped.Lemmas.TextDisplayMore   -- only for the definitions `FormatOptionE`, `displaySpanE`, `displayPositionE`
 import Driver.Sexp
 open PestTyped PestTyped.Text
 namespace Driver.TextCases
@@ -30,10 +31,11 @@ def sep (d : String) (l : List String) : String := d.intercalate l
 
 /-! ### C12 -/
 
-def c12 (s : List Char) : String :=
-  let new := String.ofList ((List.range (blen s + 2)).map fun p =>
+def c12 (s : List Char) (sel : Option (List Nat) := none) : String :=
+  let news := match sel with | none => List.range (blen s + 2) | some v => v.flatMap fun q => [q, q + 1]
+  let new := String.ofList (news.map fun p =>
     match posNew s p with | some _ => '1' | none => '0')
-  let bs := boundaries s
+  let bs := match sel with | none => boundaries s | some v => v
   let lc := bs.map fun p => match lineCol s p with | .ok (l, c) => pair l c | .panic => "P"
   let lo := bs.map fun p => match lineOf s p with
     | .ok t => pair (findLineStart s p) (findLineStart s p + blen t)
@@ -62,7 +64,7 @@ def getsOf (sp : Span) : String :=
     let ys := if hi = 'u' then [0] else List.range (l + 2)
     xs.flatMap fun x => ys.map fun y => showOptSpan (sp.get (mkBound lo x) (mkBound hi y)))
 
-def c13 (digest : Bool) (s : List Char) : String :=
+def c13 (digest light : Bool) (s : List Char) : String :=
   let n := blen s
   let new := String.ofList ((List.range (n + 2)).flatMap fun a => (List.range (n + 2)).map fun b =>
     match Span.new s a b with | some _ => '1' | none => '0')
@@ -71,11 +73,60 @@ def c13 (digest : Bool) (s : List Char) : String :=
   let splits := spans.map fun sp => pair sp.split.1 sp.split.2
   let lines := spans.map fun sp => match sp.lines with | .ok ls => sep "," (ls.map hex) | .panic => "P"
   let ls := spans.map fun sp => sep "," (sp.linesSpan.map fun l => pair l.start l.stop)
+  let head := [field digest "t.new" new, field digest "t.str" (sep ";" strs), field digest "t.split" (sep ";" splits),
+    field digest "t.lines" (sep ";" lines), field digest "t.ls" (sep ";" ls)]
+  if light then sep "\t" head else
   let gets := spans.map getsOf
   let merges := spans.flatMap fun x => spans.map fun y => showOptSpan (.ok (mergeSpans x y))
-  sep "\t" [field digest "t.new" new, field digest "t.str" (sep ";" strs), field digest "t.split" (sep ";" splits),
-    field digest "t.lines" (sep ";" lines), field digest "t.ls" (sep ";" ls), field digest "t.get" (sep ";" gets),
-    field digest "t.merge" (sep "," merges)]
+  sep "\t" (head ++ [field digest "t.get" (sep ";" gets), field digest "t.merge" (sep "," merges)])
+
+/-! `get` / `new` at the top of the `usize` range (64 bits), same enumeration as the runner's `c13x`. -/
+
+def usizeMax : Nat := 2 ^ 64 - 1
+
+def bigBounds (l n : Nat) : List Nat :=
+  [0, l, l + 1, n, n + 1, usizeMax - 1, usizeMax].foldl (fun acc x => if acc.contains x then acc else acc ++ [x]) []
+
+def c13x (s : List Char) : String :=
+  let n := blen s
+  let m := usizeMax
+  let spans := (spansOf s).map fun (a, b) => (⟨s, a, b⟩ : Span)
+  let kinds := ['i', 'e', 'u']
+  let gx := spans.map fun sp =>
+    let bb := bigBounds (sp.stop - sp.start) n
+    sep "," (kinds.flatMap fun lo => kinds.flatMap fun hi =>
+      let xs := if lo = 'u' then [0] else bb
+      let ys := if hi = 'u' then [0] else bb
+      xs.flatMap fun x => ys.map fun y => showOptSpan (sp.getU 64 (mkBound lo x) (mkBound hi y)))
+  let gn := spans.map fun sp => sep "," ([
+    sp.getU 64 .unb (.incl m), sp.getU 64 (.incl m) .unb, sp.getU 64 .unb (.excl m), sp.getU 64 (.incl 0) (.incl m),
+    sp.getU 64 (.incl m) (.incl m), sp.getU 64 (.incl 0) (.excl m), sp.getU 64 (.excl m) .unb].map showOptSpan)
+  let showPos := fun (p : Nat) => match posNew s p with | some q => pair q q | none => "-"
+  let nx := sep "," ([Span.new s m m, Span.new s 0 m, Span.new s m 0, Span.new s n m, Span.new s (m - 1) m].map
+    (fun r => showOptSpan (.ok r)) ++ [showPos m, showPos (m - 1)])
+  -- spans with start > end (`Position::span` of two positions in the wrong order)
+  let bs := boundaries s
+  let iv := bs.flatMap fun a => (bs.filter (· > a)).map fun b =>
+    let inv : Span := ⟨s, b, a⟩
+    let st := match inv.asStr with | .ok t => hex t | .panic => "P"
+    let ls := "[" ++ sep "+" (inv.linesSpan.map fun l => pair l.start l.stop) ++ "]"
+    let ln := match inv.lines with | .ok l => "[" ++ sep "+" (l.map hex) ++ "]" | .panic => "P"
+    sep "/" [pair inv.start inv.stop, st, ls, ln, showOptSpan (inv.getU 64 .unb .unb)]
+  sep "\t" ["t.nf=" ++ pair 0 n, "t.iv=" ++ sep "," iv, "t.gx=" ++ sep ";" gx, "t.gn=" ++ sep ";" gn, "t.nx=" ++ nx]
+
+/-! Two different input objects (ids 0 and 1), same enumeration as the runner's `c13i`. -/
+
+def c13i (a b : List Char) : String :=
+  let sa := (spansOf a).map fun (x, y) => (⟨0, ⟨a, x, y⟩⟩ : ISpan)
+  let sb := (spansOf b).map fun (x, y) => (⟨1, ⟨b, x, y⟩⟩ : ISpan)
+  let xm := sa.flatMap fun x => sb.map fun y =>
+    match mergeISpans x y with
+    | none => "-"
+    | some r => pair r.sp.start r.sp.stop ++ (if r.obj = 0 then "a" else if r.obj = 1 then "b" else "?")
+  let bits := fun (l1 l2 : List ISpan) =>
+    String.ofList (l1.flatMap fun x => l2.map fun y => if x.eq y then '1' else '0')
+  let hc := (sa ++ sb).all fun x => (sa ++ sb).all fun y => !x.eq y || x.hashFeed == y.hashFeed
+  sep "\t" ["t.xm=" ++ sep "," xm, "t.xe=" ++ bits sa sb, "t.se=" ++ bits sa sa, "t.hc=" ++ (if hc then "1" else "0")]
 
 /-! ### C14 -/
 
@@ -92,9 +143,21 @@ def showTR : TR (List Char) → String
   | .panic => "panic"
   | .ok t => hex t
 
-def c14 (digest : Bool) (s : List Char) (w : Char → Nat) : String :=
-  let spans := (spansOf s).map fun (a, b) => (⟨s, a, b⟩ : Span)
-  let bs := boundaries s
+/-- `a:b,a:b;p,p` -/
+def parseSel (t : String) : List (Nat × Nat) × List Nat :=
+  let parts := t.splitOn ";"
+  let sp := ((parts.getD 0 "").splitOn ",").filterMap fun x =>
+    match x.splitOn ":" with
+    | [a, b] => match a.toNat?, b.toNat? with
+      | some a, some b => some (a, b)
+      | _, _ => none
+    | _ => none
+  let ps := ((parts.getD 1 "").splitOn ",").filterMap fun x => x.toNat?
+  (sp, ps)
+
+def c14 (digest : Bool) (s : List Char) (w : Char → Nat) (sel : Option (List (Nat × Nat) × List Nat) := none) : String :=
+  let spans := (match sel with | some (sp, _) => sp | none => spansOf s).map fun (a, b) => (⟨s, a, b⟩ : Span)
+  let bs := match sel with | some (_, ps) => ps | none => boundaries s
   let sd := spans.map fun sp => showTR (displaySpan .default w sp)
   let sb := spans.map fun sp => showTR (displaySpan .bracket w sp)
   let pd := bs.map fun p => showTR (displayPosition .default w s p)
@@ -102,11 +165,37 @@ def c14 (digest : Bool) (s : List Char) (w : Char → Nat) : String :=
   sep "\t" [field digest "t.sd" (sep "," sd), field digest "t.sb" (sep "," sb),
     field digest "t.pd" (sep "," pd), field digest "t.pb" (sep "," pb)]
 
+/-! Options with a failing callback (`c14e`), same four variants as the runner. -/
+
+def br (k : Char) (t : List Char) : List Char := '<' :: k :: ':' :: t ++ ['>']
+def failMark (k : Char) : Wr := (['<', k, '!'], false)
+
+def failingOpt (which : Nat) : FormatOptionE :=
+  { span := fun t => if which = 1 then failMark 'S' else (br 'S' t, true),
+    marker := fun t => if which = 2 then failMark 'M' else (br 'M' t, true),
+    number := fun t => if (which = 3 ∧ t = ['|']) ∨ (which = 4 ∧ t ≠ ['|']) then failMark 'N' else (br 'N' t, true) }
+
+def showWr : TR Wr → String
+  | .panic => "panic"
+  | .ok (t, ok) => hex t ++ (if ok then ":K" else ":E")
+
+def c14eW (s : List Char) (w : Char → Nat) : String :=
+  let spans := (spansOf s).map fun (a, b) => (⟨s, a, b⟩ : Span)
+  let bs := boundaries s
+  let es := spans.map fun sp => sep "|" ([1, 2, 3, 4].map fun k => showWr (displaySpanE (failingOpt k) w sp))
+  let ep := bs.map fun p => sep "|" ([1, 2, 3, 4].map fun k => showWr (displayPositionE (failingOpt k) w s p))
+  sep "\t" ["t.es=" ++ sep "," es, "t.ep=" ++ sep "," ep]
+
 /-- One `text …` case (the leading `text` field already removed). -/
 def run : List String → String
   | ["c12", h] => c12 (unhex h)
-  | ["c13", h, m] => c13 (m = "d") (unhex h)
-  | ["c14", h, m, wt] => c14 (m = "d") (unhex h) (parseWidths wt)
+  | ["c12", h, offs] => c12 (unhex h) (some ((offs.splitOn ",").filterMap (·.toNat?)))
+  | ["c13", h, m] => c13 (m.contains 'd') (m.contains 'l') (unhex h)
+  | ["c13x", h] => c13x (unhex h)
+  | ["c14e", h, wt] => c14eW (unhex h) (parseWidths wt)
+  | ["c13i", a, b] => c13i (unhex a) (unhex b)
+  | ["c14", h, m, wt] => c14 (m.contains 'd') (unhex h) (parseWidths wt)
+  | ["c14", h, m, wt, sel] => c14 (m.contains 'd') (unhex h) (parseWidths wt) (some (parseSel sel))
   | _ => "v=badline"
 
 end Driver.TextCases
